@@ -207,6 +207,18 @@ func (fv *FuncVC) callWithContractEnv(x *ssa.Call, cc *FuncContract, extra map[s
 	if cc.Recv != "" {
 		calleeName = cc.Recv + "." + cc.Name
 	}
+	// ghost assertions of the caller's contract attached to calls of this callee
+	if fv.c != nil {
+		for k, b := range fv.c.Before {
+			if b.Callee == calleeName || b.Callee == cc.TargetPkg+"."+cc.Name || strings.HasSuffix(cc.Key(), "."+b.Callee) {
+				env := fv.specEnv(fv.st)
+				env.postAlloc = fv.curAlloc()
+				fv.bindLocals(env, x.Block(), fv.st)
+				fv.oblige("assert", fmt.Sprintf("assert@call:%s:%d", calleeName, k), fv.props(), env.withPol(1).trBool(b.E), x.Pos(),
+					fmt.Sprintf("before calling %s: %s", calleeName, exprString(b.E)))
+			}
+		}
+	}
 	for k, r := range cc.Requires {
 		if r.Free {
 			continue
@@ -434,6 +446,15 @@ func (fv *FuncVC) appendOp(x *ssa.Call) {
 	// append(nil-or-any, nothing) returns s itself
 	fv.updHeap(hn, app("ite", inplace, app("store", H, app("s_arr", sv), A), app("store", H, newid, A)))
 	fv.defReg(x, res)
+	// stated explicitly (it follows from the two definitions above) so that quantifier instantiation sees that the
+	// result's backing array is A, and the single appended element as a ground fact
+	fv.assume(eq(app("select", fv.st.get(hn), app("s_arr", fv.val(x))), A))
+	if len(x.Call.Args) == 2 {
+		if sl2, ok := x.Call.Args[1].Type().Underlying().(*types.Slice); ok && sl2 != nil {
+			last := app("select", A, app("idx", app("s_off", fv.val(x)), n))
+			fv.assume(implies(app("=", m, "1"), eq(last, srcAt("0"))))
+		}
+	}
 }
 
 func (fv *FuncVC) copyOp(x *ssa.Call) {
